@@ -195,7 +195,7 @@ def handleSpl (kind : String) (rest impl : List String) : Verdict :=
       match splineNew pts with
       | .panic _ =>
         let v := Verdict.ok [kindTag kind, "malformed"]
-        let rejected := (impl.getD 0 "").startsWith "panic:length_must_be"
+        let rejected := isPanic impl   -- whether it panics, not the wording of the message
         (v.withDiff (!rejected) "model: new() panics").withSpec (!isPanic impl) "new-accepts-malformed" s!"BezierSpline::new accepted {n} points"
       | .ok pts =>
         let segs := (n - 1) / 3
@@ -292,7 +292,7 @@ def handleRays (kind : String) (rest impl : List String) : Verdict :=
       match fromRays xrays with
       | .panic _ =>
         let v := v.addTag "malformed"
-        let rejected := (impl.getD 0 "").startsWith "panic:length_must_be"
+        let rejected := isPanic impl   -- whether it panics, not the wording of the message
         (v.withDiff (!rejected) "model: from_rays panics (fewer than two rays)").withSpec (n ≥ 2 && isPanic impl) "from-rays-panic" "from_rays panicked on two or more rays"
       | .ok pts =>
         if isPanic impl then
